@@ -142,7 +142,12 @@ pub fn setup(r: &mut Rng, thorough: bool, scheme: SchemeType) -> Option<Setup> {
     // lift paths of multiply_plain / add_plain / encryption are taken)
     let small_prime = r.chance(2, 5);
     if small_prime { let pos = r.below(bits.len() as u64 - 1) as usize; bits[pos] = *r.pick(&[20usize, 22, 24]); bits.push(60); }
+    // ... and every fifth-or-so has a WIDE plain modulus above a medium-sized coefficient prime (t * q_j >= 2^64: scalar
+    // multiplications by t must reduce the scalar first; lazy single-word shortcuts overflow here)
+    let wide_t = !small_prime && r.chance(1, 4);
+    if wide_t { let pos = r.below(bits.len() as u64 - 1) as usize; bits[pos] = *r.pick(&[30usize, 32, 36]); bits.push(60); }
     let qs = pick_primes(r, n, &bits)?;
+    if wide_t { let t = ((1u64 << r.range(38, 46)) + 2 * r.below(1 << 30)) | 1; if qs.iter().any(|&q| gcd(q, t) != 1) { return None; } return make(scheme, n, &qs, t, true, None); }
     let tk = r.below(3);
     let t = if small_prime { let m = *qs.iter().min().unwrap(); match tk { 0 => (m | 1) + 2 * (1 + r.below(1 << 22)), 1 => 1u64 << r.range(25, 27), _ => (3 * m) | 1 } }
             else { match tk { 0 => pick_plain(r, n, 0, &qs), 1 => 1u64 << r.range(2, 10), _ => 3 + 2 * r.below(30) } };
